@@ -171,7 +171,8 @@ def _expr_simp(e):
             while len(args) >= 2 and isinstance(args[-1], ExprInt) and isinstance(args[-2], ExprInt):
                 i2 = args.pop()
                 i1 = args.pop()
-                if i1.get_size() != i2.get_size():
+                # (a shift count may be narrower than the shifted value)
+                if op in op_assoc and i1.get_size() != i2.get_size():
                     raise ValueError("diff size! %s %r %r"%(str(e),
                                                             i1.get_size(),
                                                             i2.get_size()))
